@@ -26,7 +26,9 @@ import traceback
 
 from . import bootstrap
 
-EVIDENCE_DIR = os.path.join(bootstrap.VERIF_DIR, "evidence")
+# Evidence always describes runs against /repo itself; mutant / scratch-tree runs (VERIF_REPO set)
+# redirect it so that committed evidence is never overwritten by them.
+EVIDENCE_DIR = os.environ.get("PVMON_EVIDENCE_DIR") or os.path.join(bootstrap.VERIF_DIR, "evidence")
 REPLAY_DIR = os.path.join(EVIDENCE_DIR, "replay")
 KNOWN_FILE = os.path.join(bootstrap.VERIF_DIR, "known_findings.json")
 
